@@ -45,13 +45,16 @@ pub fn speed_case_of(case: &TrainCase) -> SpeedCase {
 /// With a monotone profile ahead the curve construction is sound, so any violation there is
 /// reported as new.
 pub fn window_class(sc: &SpeedCase, b: &[f64], x: f64) -> &'static str {
+    window_class_timed(sc, b, x, false)
+}
+
+/// `timed`: the path is extended link by link under dispatch authority, so every link
+/// boundary may have been an end of authority the train had to stop at
+pub fn window_class_timed(sc: &SpeedCase, b: &[f64], x: f64, timed: bool) -> &'static str {
     let end = *b.last().unwrap();
-    if x >= end - 150.0 {
-        // last metres before the stop at the end of the path: a second known defect — the
-        // stopping curve is a step function sampled once per time step, a strongly braked
-        // train starts braking up to one step late and meets the next curve point too fast
-        return ":final-approach";
-    }
+    // last metres before a stop (end of the path; under dispatch authority every link
+    // boundary may have been one): reported only when the profile ahead is monotone
+    let near_stop = x >= end - 150.0 || (timed && b.iter().any(|e| x >= e - 150.0 && x <= e + 1.0));
     // exact breakpoints of the posted profile in (x, x + 2000]
     let mut bps: Vec<f64> = vec![];
     for (j, l) in sc.links.iter().enumerate() {
@@ -86,18 +89,69 @@ pub fn window_class(sc: &SpeedCase, b: &[f64], x: f64) -> &'static str {
     }
     if rise && fall {
         ":non-monotone-limits-ahead"
+    } else if near_stop {
+        ":stop-approach"
     } else {
         ""
     }
 }
 
+/// "Speed limit violated! speed=a m^1 s^-1, speed_limit=b m^1 s^-1" -> a - b
+fn parse_excess(msg: &str) -> Option<f64> {
+    let a = msg.split("speed=").nth(1)?.split(' ').next()?.parse::<f64>().ok()?;
+    let b = msg.split("speed_limit=").nth(1)?.split(' ').next()?.parse::<f64>().ok()?;
+    Some(a - b)
+}
+
 pub fn check_c03_run(case: &TrainCase, run: &TrainRun, cx: &mut Ctx) {
+    check_c03_run_opts(case, run, cx, false)
+}
+
+pub fn check_c03_run_opts(case: &TrainCase, run: &TrainRun, cx: &mut Ctx, timed: bool) {
+    // positions on the final stopping curve (as the sim itself laid it out, minus one step of
+    // travel) belong to the known stopping-curve defect, whatever their distance from the end
+    let on_stop_curve = |x: f64, v: f64| run.stop_curve_start.map(|s| x >= s - v.max(1.0) - 1.0).unwrap_or(false);
+    let speed_at = |x: f64| run.states.iter().rev().find(|s| s.offset.value <= x + 1e-9).map(|s| s.speed.value).unwrap_or(0.0);
+    // class for "target above limit" failures (root cause 1 and its stop-curve variant)
+    let window_class = |sc: &SpeedCase, b: &[f64], x: f64| {
+        let g = window_class_timed(sc, b, x, timed);
+        if g == ":non-monotone-limits-ahead" {
+            g
+        } else if on_stop_curve(x, speed_at(x)) || g == ":stop-approach" {
+            ":stop-approach"
+        } else {
+            ""
+        }
+    };
+    // class for "speed above a limit" failures: geometric class of root cause 1 first; else the
+    // magnitude class of root cause 2 — every braking curve is a right-continuous step
+    // function sampled once per step, so a train may start braking one step late and exceed
+    // the next curve point by at most one step's worth of deceleration
+    let one_step = {
+        let m = case.train.mass_static() + case.train.mass_rot();
+        let f = case.train.fric_brake_force_max();
+        1.1 * (f / m + 0.02 * G) * 1.0 + 0.05
+    };
+    let speed_class = |sc: &SpeedCase, b: &[f64], x: f64, excess: f64| {
+        let g = window_class_timed(sc, b, x, timed);
+        if g == ":non-monotone-limits-ahead" {
+            g
+        } else if excess <= one_step {
+            ":within-one-braking-step"
+        } else {
+            ""
+        }
+    };
     let sc = speed_case_of(case);
     let b = crate::props::speed_profile::bases(&sc);
     let st = &run.states;
     let tag = |n: &str| format!("C03|{n}");
     if let Some(p) = &run.panic {
-        let wc = st.last().map(|s| window_class(&sc, &b, s.offset.value)).unwrap_or("");
+        // "Speed limit violated! speed=a m^1 s^-1, speed_limit=b m^1 s^-1"
+        let nums: Vec<f64> = p.msg.split(|c: char| c == '=' || c == ' ' || c == ',').filter_map(|t| t.parse::<f64>().ok()).collect();
+        let excess = if p.msg.contains("Speed limit violated") && nums.len() >= 2 { nums[0] - nums[nums.len() - 2].min(nums[1]) } else { f64::INFINITY };
+        let excess = if p.msg.contains("Speed limit violated") { parse_excess(&p.msg).unwrap_or(excess) } else { f64::INFINITY };
+        let wc = st.last().map(|s| speed_class(&sc, &b, s.offset.value, excess)).unwrap_or("");
         cx.fail(
             tag(&format!("panic|{}{wc}", p.class())),
             format!("run unwound: {} at {}:{} after {} saved steps", p.msg, p.file, p.line, st.len()),
@@ -122,12 +176,12 @@ pub fn check_c03_run(case: &TrainCase, run: &TrainRun, cx: &mut Ctx) {
         let s = &st[k];
         let v = s.speed.value;
         let x = s.offset.value;
-        if !(v >= -1e-6) {
+        if !(v >= -1e-4) {
             cx.fail(tag("speed|negative"), format!("saved step {k}: speed {v} at offset {x}"));
         }
         let p = posted(&sc, &b, x.min(*b.last().unwrap() - 1e-9));
         if !(v <= p * (1.0 + 1e-9) + 1e-9) {
-            let wc = window_class(&sc, &b, x);
+            let wc = speed_class(&sc, &b, x, v - p);
             cx.fail(tag(&format!("speed|above-posted-limit{wc}")), format!("saved step {k}: speed {v} > posted limit {p} at offset {x}"));
         }
         if k >= 1 {
@@ -135,13 +189,13 @@ pub fn check_c03_run(case: &TrainCase, run: &TrainRun, cx: &mut Ctx) {
                 let wc = window_class(&sc, &b, st[k - 1].offset.value);
                 cx.fail(tag(&format!("target|above-limit-in-force{wc}")), format!("saved step {k}: speed_target {} > speed_limit {} at offset {}", s.speed_target.value, s.speed_limit.value, st[k - 1].offset.value));
             }
-            if !(s.offset.value >= st[k - 1].offset.value - 1e-6) {
+            if !(s.offset.value >= st[k - 1].offset.value - 1e-4) {
                 cx.fail(tag("offset|moved-backwards"), format!("saved step {k}: offset {} -> {}", st[k - 1].offset.value, s.offset.value));
             }
             // limit in force at the position of step k-1 is the one evaluated at step k
             let vp = st[k - 1].speed.value;
             if !(vp <= s.speed_limit.value * (1.0 + 1e-9) + 1e-9) {
-                let wc = window_class(&sc, &b, st[k - 1].offset.value);
+                let wc = speed_class(&sc, &b, st[k - 1].offset.value, vp - s.speed_limit.value);
                 cx.fail(tag(&format!("speed|above-limit-in-force{wc}")), format!("saved step {k}: speed {vp} at offset {} > limit in force {} (braking curve / posted)", st[k - 1].offset.value, s.speed_limit.value));
             }
             if s.speed_limit.value < st[k - 1].speed_limit.value && k > 1 {
@@ -156,11 +210,14 @@ pub fn check_c03_run(case: &TrainCase, run: &TrainRun, cx: &mut Ctx) {
             if !(x >= end - 1000.0 * 0.3048 - 1e-6) {
                 cx.fail(tag("stop|short-of-window"), format!("run ended Ok at offset {x}, path end {end}"));
             }
+            // an overshoot of less than one slow step is the terminal form of the known
+            // stopping-curve defect; anything larger is reported as new
+            let small = if x <= end + 3.0 && fs.speed.value.abs() <= 3.0 { ":within-one-slow-step" } else { "" };
             if !(x <= end + 1e-6) {
-                cx.fail(tag("stop|beyond-end-of-path"), format!("run ended Ok at offset {x} beyond path end {end} (speed {})", fs.speed.value));
+                cx.fail(tag(&format!("stop|beyond-end-of-path{small}")), format!("run ended Ok at offset {x} beyond path end {end} (speed {})", fs.speed.value));
             }
             if fs.speed.value != 0.0 {
-                cx.fail(tag("stop|not-at-rest"), format!("run ended Ok with speed {} at offset {x}, path end {end}", fs.speed.value));
+                cx.fail(tag(&format!("stop|not-at-rest{small}")), format!("run ended Ok with speed {} at offset {x}, path end {end}", fs.speed.value));
             }
         }
     }
@@ -170,12 +227,137 @@ pub fn check_c03_run(case: &TrainCase, run: &TrainRun, cx: &mut Ctx) {
     }
 }
 
+#[derive(serde::Serialize, serde::Deserialize, Clone, Debug)]
+#[serde(untagged)]
+pub enum C03Case {
+    /// timed paths from the real pipeline make_est_times -> run_dispatch -> walk_timed_path
+    Timed { timed: crate::props::corridor::DispatchCase },
+    Chain(TrainCase),
+}
+
+/// the route a train was given, as a chain of link specs (for the posted-limit reference)
+fn route_specs(c: &crate::gen::net_corridor::CorridorSpec, cor: &crate::gen::net_corridor::Corridor, route: &[usize], tt: u8) -> Vec<LinkSpec> {
+    let mut out = vec![];
+    for l in route {
+        // find (stage, track) of this link index
+        let mut seg = None;
+        for (si, st) in c.stages.iter().enumerate() {
+            for (t, s) in std::iter::once(&st.main).chain(st.side.iter()).enumerate() {
+                if cor.fwd[si][t] as usize == *l || cor.rev[si][t] as usize == *l {
+                    seg = Some(s.clone());
+                }
+            }
+        }
+        let seg = seg.expect("link on route exists");
+        out.push(LinkSpec {
+            length: seg.length,
+            elevs: vec![(0.0, 0.0), (seg.length, 0.0)],
+            headings: vec![],
+            cats: vec![],
+            single: true,
+            sets: vec![SetSpec { train_type: tt, head_end: false, params: vec![], limits: vec![(0.0, seg.length, seg.speed)] }],
+        });
+    }
+    out
+}
+
+fn check_timed(dc: &crate::props::corridor::DispatchCase, cx: &mut Ctx) {
+    use crate::props::corridor::*;
+    cx.label("timed_path_from_dispatch");
+    let b = match build(dc) {
+        Ok(b) => b,
+        Err(e) => {
+            cx.discard(&format!("build_err:{}", msg_class(&format!("{e:#}"), 40)));
+            return;
+        }
+    };
+    let mut members = vec![];
+    let mut nets = vec![];
+    for i in 0..dc.trains.len() {
+        if let Ok(Ok((n, _))) = est_times_for(&b, i) {
+            members.push(i);
+            nets.push(n);
+        }
+    }
+    if members.is_empty() {
+        cx.discard("no_train_with_est_times");
+        return;
+    }
+    let slts: Vec<_> = members.iter().map(|i| b.slts[*i].clone()).collect();
+    let plan = match catch(|| altrios_core::meet_pass::dispatch::run_dispatch(&b.corridor.links, &slts, nets, false, false)) {
+        Ok(Ok(p)) => p,
+        _ => {
+            // dispatch errors / unwinds are C05's business
+            cx.discard("dispatch_failed");
+            return;
+        }
+    };
+    let mut any_wait = false;
+    for (t, path) in plan.iter().enumerate() {
+        let ti = members[t];
+        let spec = &dc.trains[ti].train;
+        let route: Vec<usize> = path.iter().map(|p| p.link_idx.idx()).collect();
+        let links = route_specs(&dc.net, &b.corridor, &route, spec.train_type);
+        let tc = TrainCase { links, train: spec.clone(), mode: 3, trace: vec![], save_interval: Some(1), simulation_days: None };
+        let mut sim = b.slts[ti].clone();
+        sim.set_save_interval(Some(1));
+        let mut run = TrainRun::empty_pub();
+        run.built = true;
+        let r = catch(|| sim.walk_timed_path(&b.corridor.links, path));
+        match r {
+            Ok(Ok(())) => {}
+            Ok(Err(e)) => run.result = Err(format!("{e:#}")),
+            Err(p) => {
+                run.result = Err(format!("panic: {}", p.msg));
+                run.panic = Some(p);
+            }
+        }
+        run.states = sim.history.state_vec();
+        run.final_state = Some(sim.state);
+        run.offset_end = sim.offset_end().value;
+        run.stop_curve_start = stop_curve_start(&sim);
+        cx.count("saved_steps", run.states.len() as u64);
+        match &run.result {
+            Ok(()) => cx.label("timed_run_ok"),
+            Err(e) => cx.label(&format!("timed_err:{}", msg_class(e.lines().last().unwrap_or(""), 50))),
+        }
+        // the train had to wait for its authority somewhere (speed 0 away from both ends)
+        let l = spec.length();
+        if run.states.iter().any(|s| s.speed.value == 0.0 && s.offset.value > l + 50.0 && s.offset.value < run.offset_end - 400.0) {
+            any_wait = true;
+        }
+        // observation, not asserted (the statement speaks of the sim's own path):
+        // walk_timed_path never extends the path with the last planned link
+        let total: f64 = tc.links.iter().map(|x| x.length).sum();
+        cx.label_if((run.offset_end - total).abs() > 1e-6, "timed_walk_path_shorter_than_planned_route");
+        if run.offset_end == 0.0 {
+            // single-link plan: no path at all, the train never moves; nothing to observe
+            cx.label("timed_walk_with_empty_path");
+            continue;
+        }
+        check_c03_run_opts(&tc, &run, cx, true);
+    }
+    cx.label_if(any_wait, "train_waited_for_authority");
+    cx.label_if(plan.len() >= 2, "multi_train_timed");
+}
+
 pub struct C03;
 impl C03 {
-    fn gen(g: &mut Gen, tier: Tier) -> TrainCase {
-        gen_slts_case(g, tier, false)
+    fn gen(g: &mut Gen, tier: Tier) -> C03Case {
+        if g.bool(0.12) {
+            let dc = crate::props::corridor::gen_dispatch_case(g, 3, &crate::gen::net_corridor::CorridorOpts { max_stages: 5, max_seg: 9000.0, ..Default::default() });
+            return C03Case::Timed { timed: dc };
+        }
+        C03Case::Chain(gen_slts_case(g, tier, false))
     }
-    fn check(case: &TrainCase, cx: &mut Ctx) {
+    fn check(case: &C03Case, cx: &mut Ctx) {
+        let case = match case {
+            C03Case::Timed { timed } => {
+                check_timed(timed, cx);
+                return;
+            }
+            C03Case::Chain(c) => c,
+        };
         let run = run_case(case);
         if !run.built {
             cx.discard(&format!("build_err:{}", msg_class(&run.build_err, 50)));
@@ -206,16 +388,16 @@ impl Property for C03 {
     fn tape_len(&self, _t: Tier) -> usize {
         6144
     }
-    crate::typed_property!(C03, TrainCase);
+    crate::typed_property!(C03, C03Case);
     fn rule(&self) -> String {
-        "speed-limited runs over generated chain networks (grades <= 1 %, 1-7 restrictions per link incl. short higher-speed windows, head/tail-end sets), whole path + walk() (60 %) or link-by-link extend_path interleaved with step() (40 %); every saved step: speed >= 0, speed <= independently computed posted limit at the position, speed <= limit in force (as evaluated on the next step), speed_target <= speed_limit, offset non-decreasing; Ok run ends at rest within [end-1000 ft, end]; Err has text; any unwind is a violation. Non-trivial: >= 200 saved steps with at least one limit drop that required braking".into()
+        "speed-limited runs over generated chain networks (grades <= 1 %, 1-7 restrictions per link incl. short higher-speed windows, head/tail-end sets), whole path + walk() or link-by-link extend_path interleaved with step() (88 % together), or 1-3 trains through the real pipeline make_est_times -> run_dispatch -> walk_timed_path on a generated corridor (12 %); every saved step: speed >= 0, speed <= independently computed posted limit at the position, speed <= limit in force (as evaluated on the next step), speed_target <= speed_limit, offset non-decreasing; Ok run ends at rest within [end-1000 ft, end]; Err has text; any unwind is a violation. Non-trivial: >= 200 saved steps with at least one limit drop that required braking".into()
     }
     fn assumptions(&self) -> Vec<String> {
         vec![
             "first link >= 4-9 km + train length in 90 % of cases (backward braking curve must fit; shorter ones exercise the descriptive-error path)".into(),
             "trains 3-100 cars, consist 0.7-2.5 W/kg; runs that return Err (insufficient power / braking force) are accepted outcomes".into(),
             "posted limit uses half-open coverage [start, end(+length)); position clamped just inside the path end".into(),
-            "non-negative speed / non-decreasing offset are checked with an absolute tolerance of 1e-6 (m/s, m): rounding residue of the target-speed update is not a reversal".into(),
+            "non-negative speed / non-decreasing offset are checked with an absolute tolerance of 1e-4 (m/s, m): the residue of the last integration step of a train that stalls on a grade (observed: -1.3e-6 m/s for one step, then the descriptive insufficient-power error) is not a reversal".into(),
         ]
     }
     fn panic_is_violation(&self) -> bool {
